@@ -51,9 +51,9 @@ def run(ctx):
     rep.rule('R9.5', 'groupselectmin/max: value sort (reverse for max) then groupselectfirst with its own key sort')
     rep.rule('R9.6', 'key-less simple aggregate yields exactly one data row unconditionally')
     rep.rule('R9.11', 'key cells of the rows line up with the key fields of the header: same tests on the key specification, same width, no test on a group key value')
-    r911(ctx, rep)
+    ctx.attempt(r911, ctx, rep)
     rep.rule('R9.12', 'valuecounter counts every value once: one increment per pass, only IndexError may be swallowed')
-    r912(ctx, rep)
+    ctx.attempt(r912, ctx, rep)
     rep.assumptions = ['itertools.groupby groups maximal runs of equal keys', 'sort is stable (C05)']
     rep.trusted = ['C05', 'C11 R11.3']
     # R9.1 from C11
@@ -77,10 +77,16 @@ def run(ctx):
         it = ctx.project.need_fn(ifq)
         _key_chain(ctx, rep, ci, it)
         _group_loop(ctx, rep, it, filt_ok)
-    _rowgroupby(ctx, rep)
-    _groupselect(ctx, rep)
-    _keyless(ctx, rep)
-    _mergedup_guard(ctx, rep)
+    ctx.attempt(_rowgroupby, ctx, rep)
+    ctx.attempt(_groupselect, ctx, rep)
+    ctx.attempt(_keyless, ctx, rep)
+    ctx.attempt(_mergedup_guard, ctx, rep)
+    ctx.attempt(_mergedup_header, ctx, rep)
+    from .common import check_late_binding as _late, check_selector_truth as _seltruth
+    rep.rule('R9.13', 'a value getter created in a loop over the aggregation specifications does not read the loop\'s variables late (it is called after the loop ended)')
+    ctx.floor('functions_with_loops', ctx.attempt(_late, ctx, rep, 'R9.13', ctx.functions(['petl.transform.reductions', 'petl.util.base'])) or 0, 15)
+    rep.rule('R9.14', 'a key / field selector (name or position; 0 and \'\' are valid) is never tested for truth')
+    ctx.floor('selector_functions', ctx.attempt(_seltruth, ctx, rep, 'R9.14', ctx.functions(['petl.transform.reductions', 'petl.util.base'])) or 0, 3)
     from .plumbing import check_plumbing
     rep.rule('R9.7', 'view -> iterator plumbing of the grouping operators: self.X reaches the parameter named X')
     ctx.floor('plumbing_sites', check_plumbing(ctx, rep, 'R9.7', ['petl.transform.reductions', 'petl.transform.dedup', 'petl.transform.reshape']), 35)
@@ -289,6 +295,49 @@ def _groupselect(ctx, rep):
             if not ok_pres:
                 why.append('presorted must not be forwarded: the value sort destroyed the key order')
             rep.violated('R9.5', fn, norm(c)[:70], '; '.join(why), c)
+
+
+# ------------------------------------------------------------------------- R9.15
+def _mergedup_header(ctx, rep):
+    """mergeduplicates: the output rows start with the group key as rowgroupby hands it out -- the key values in the
+    order of the key specification; the output header must therefore start with the key fields in that same order
+    (the key specification itself), not in the order they have in the source header."""
+    from ..ladder import paths, seq_eval, seq_exec, test_defs
+    rep.rule('R9.15', 'mergeduplicates: the key fields of the output header are the key specification in its own order (the order of the key values in every output row)')
+    fn = ctx.project.need_fn('petl.transform.reductions:itermergeduplicates')
+    kparam = 'key' if 'key' in fn.params else None
+    if kparam is None:
+        rep.undecided('R9.15', fn, 'output header', 'no parameter named key', fn.node)
+        return
+    defs = test_defs(fn.node)
+    atom = 'isinstance(%s, string_types)' % kparam
+    for is_str, want in ((True, 'lit:' + kparam), (False, kparam)):
+        val = {atom: is_str}
+        got = None
+        for pth in paths(fn.node.body, val, defs):
+            pre, hdr = [], None
+            for st in pth.effects:
+                ys = [x for x in ast.walk(st) if isinstance(x, ast.Yield)] if not isinstance(st, (ast.For, ast.While, ast.With)) else []
+                if ys and ys[0].value is not None:
+                    hdr = ys[0].value
+                    break
+                pre.append(st)
+            if hdr is None:
+                continue
+            env = seq_exec(pre, {}, val, defs)
+            got = seq_eval(hdr, env, val, defs)
+            break
+        c = 'output header, %s key' % ('single' if is_str else 'compound')
+        if not got:
+            rep.undecided('R9.15', fn, c, 'header yield not evaluated', fn.node)
+        elif got[0] == (want, None):
+            rep.held('R9.15', fn, c, 'starts with the key specification', fn.node)
+        else:
+            rep.violated('R9.15', fn, c,
+                         'the header starts with `%s%s`, not with the key specification in its own order: the rows start with '
+                         'the key values in the order of the key specification, so with a compound key given in another order '
+                         'than the source header the key values stand under the wrong field names'
+                         % (got[0][0][:60], (' mapped by ' + got[0][1]) if got[0][1] else ''), fn.node)
 
 
 # ------------------------------------------------------------------------- R9.8
